@@ -63,7 +63,7 @@ PLANS['C16'] = Plan(
             'src/correlation/optical_map.py::toRelativeGenomicPositions#real',
             'src/correlation/peaks_selector.py::PeaksSelector.selectPeaks',
             'src/correlation/sequence_generator.py::SequenceGenerator.positionsToSequence', 'src/correlation/vectorise.py::blur',
-            'src/correlation/optical_map.py::CorrelationResult.createPeaks'], 'proof',
+            'src/correlation/optical_map.py::CorrelationResult.createPeaks', 'src/correlation/optical_map.py::OpticalMap.getSequence'], 'proof',
     "C16 is the conjunction of the postconditions of the real functions, each proved for all inputs: vectorisePositions (bit k set iff a label lies in "
     "[start+k*res, start+(k+1)*res), every label between start and end covered; ghost bin boundaries and witness array); blur (a result bit is 1 exactly when a "
     "non-zero original entry lies within the radius, length kept, ValueError exactly for a negative radius: invariant over the list of shifted copies, then the "
@@ -162,7 +162,8 @@ WCF = 'src/workflow_coordinator.py::_WorkflowCoordinator.'
 PLANS['C07'] = Plan(
     'C07', [WCF + '__align', WCF + '__getBestAlignment', 'src/alignment/segment_chainer.py::SequentialityScorer.getScore', WCF + 'execute',
             'src/alignment/segments.py::AlignmentSegment.slice', 'src/correlation/optical_map.py::OpticalMap.getInitialAlignment',
-            'src/correlation/optical_map.py::InitialAlignment.refine', WCF + '__getPrimaryCorrelations', WCF + '__getSecondaryCorrelation'], 'other',
+            'src/correlation/optical_map.py::InitialAlignment.refine', WCF + '__getPrimaryCorrelations', WCF + '__getSecondaryCorrelation',
+            'src/program.py::Program.run', 'src/program.py::Program.__readMaps'], 'other',
     "Deductive part (exception-freedom of the per-query glue, safety obligations generated automatically by the VC generator): _WorkflowCoordinator.__align "
     "never raises - in particular the unpacking of zip(*rows) is only reached with at least one candidate row - and __getBestAlignment returns None exactly for "
     "an empty candidate list (else a maximal-confidence candidate); _WorkflowCoordinator.execute hands p_imap a worker count that is None or at least 1 "
@@ -249,7 +250,7 @@ PLANS['C04'] = Plan(
 PLANS['C05'] = Plan(
     'C05', ['src/correlation/peaks_selector.py::PeaksSelector.selectPeaks', WCF + '__getBestAlignment', WCF + 'execute',
             'src/alignment/alignment_results.py::AlignmentResults.filterOutSubsequentAlignmentsForSingleQuery',
-            'src/multi_pass_workflow_coordinator.py::_MultiPassWorkflowCoordinator.execute'], 'other',
+            'src/multi_pass_workflow_coordinator.py::_MultiPassWorkflowCoordinator.execute', WCF + '__align', WCF + '__getPrimaryCorrelations', 'src/program.py::Program.run'], 'other',
     "Deductive links: selectPeaks keeps the peaksCount highest-scoring peaks in descending order; __getBestAlignment returns a maximal-confidence candidate; "
     "filterOutSubsequentAlignmentsForSingleQuery keeps one input row per query id, of maximal confidence, in ascending id order; the mode logic of "
     "_MultiPassWorkflowCoordinator.execute returns / writes the stated row lists per mode (ghost log of the writes; best mode: ascending ids, contains every "
@@ -260,7 +261,7 @@ PLANS['C05'] = Plan(
 )
 
 PLANS['C17'] = Plan(
-    'C17', [OMP + 'trim', OMP + 'trim#wellformed', 'lemma::C17::trim_is_idempotent'], 'other',
+    'C17', [OMP + 'trim', OMP + 'trim#wellformed', 'lemma::C17::trim_is_idempotent', 'src/program.py::Program.__readMaps'], 'other',
     "Deductive part (proved for all maps): OpticalMap.trim keeps the number of labels, moves the first label to 0, keeps every inter-label distance, sets the length "
     "to last-first+1 and keeps the id; idempotence trim(trim(m)) = trim(m) is a lemma over that contract. BOUNDED: CmapReader (pandas) on generated CMAP text "
     "(arbitrary ids, 0-8 labels, one-decimal coordinates, shuffled rows, extra columns, label-less molecules, id filters) against an independent parser.",
@@ -294,13 +295,17 @@ PLANS['C19'] = Plan(
     assumptions=['dict / set / difflib based comparison: bounded only'],
 )
 PLANS['C20'] = Plan(
-    'C20', [], 'exploration',
-    "BOUNDED only: cluster_indels mutates the previous cluster through an alias and concatenates ids as strings, and the finders read dictionaries of "
-    "alignments - outside the subset of the VC generator. The four clustering clauses are a run-time contract on the real cluster_indels over all short sorted "
-    "call lists around the blur distance (exactly at / inside / outside, types and chromosomes mixed) and random longer lists; write_indel_file is re-read; the "
-    "two indel finders are checked on synthetic alignments around both size bands (Length, type, band).",
+    'C20', ['sv/molecule_indels.py::look_for_indels_in_breakage', 'sv/segment_indels.py::look_for_indels_in_breakage'], 'other',
+    "Deductive (second sentence): both indel finders are verified (partial correctness: KeyError / IndexError end the run) with loop invariants over the "
+    "two result lists and ghost lists naming the source of every call: a call carries the ids of ONE given alignment, its four coordinates are those of the "
+    "label pair at the breakpoint and of the next aligned pair in the given maps (Python indexing), Length = |reference gap| - |query gap|, and its type - and "
+    "the list it is filed under, 'insertion' first as write_indel_file reads them - is 'insertion' exactly when Length < 0. Dicts are read-only arguments "
+    "(DICT kind: has / get / insertion-ordered tables); a table row is a fixed-length row. BOUNDED (first sentence): cluster_indels mutates the previous "
+    "cluster through an alias and concatenates ids as strings - outside the VC generator. The four clustering clauses are a run-time contract on the real "
+    "cluster_indels over all short sorted call lists around the blur distance (exactly at / inside / outside, types and chromosomes mixed) and random longer "
+    "lists; write_indel_file is re-read; the two indel finders are also run on synthetic alignments around both size bands (Length, type, band).",
     bounded=_lazy('bcheck.c20', 'bounded'), replay=_lazy('bcheck.c20', 'replay'),
-    technique='bounded exhaustive small-scope run-time contract on the real functions (no deductive part: aliasing / string concatenation)',
+    technique='deductive contracts on the two indel finders (own VC generator, z3) + bounded exhaustive small-scope run-time contract on the real cluster_indels / write_indel_file',
 )
 
 PLANS['C08'] = Plan(
@@ -327,7 +332,7 @@ PLANS['C06'] = Plan(
     'C06', ['src/correlation/optical_map.py::toRelativeGenomicPositions', 'src/correlation/sequence_generator.py::SequenceGenerator.positionsToSequence',
             AE + '__getAlignedPairs', 'src/correlation/optical_map.py::OpticalMap.getSequence', 'src/correlation/optical_map.py::CorrelationResult.create',
             'src/correlation/optical_map.py::CorrelationResult.createPeaks', 'src/correlation/optical_map.py::InitialAlignment.refine',
-            'src/correlation/optical_map.py::InitialAlignment.create', 'src/correlation/optical_map.py::OpticalMap.getInitialAlignment'], 'exploration',
+            'src/correlation/optical_map.py::InitialAlignment.create', 'src/correlation/optical_map.py::OpticalMap.getInitialAlignment', 'src/program.py::Program.__readMaps'], 'exploration',
     "Decided by a BOUNDED run-time contract on Program.run: that FFT cross-correlation plus scipy find_peaks seeds the true diagonal is floating-point "
     "numerics outside any contract within reach. Planted exact copies of interior reference windows (class stated in the property) must be reported exactly. "
     "Deductive contributions reported alongside and not counted towards the level: bins are counted from the window start and a bin index converts to the "
@@ -358,7 +363,7 @@ PLANS['C11'] = Plan(
 PLANS['C10'] = Plan(
     'C10', [AR + 'getUnalignedFragments', 'src/alignment/alignment_results.py::AlignmentResults.filterOutSubsequentAlignmentsForSingleQuery',
             'src/workflow_coordinator.py::_WorkflowCoordinator.execute',
-            'src/multi_pass_workflow_coordinator.py::_MultiPassWorkflowCoordinator.getSecondPassAlignmentRows#checked'], 'exploration',
+            'src/multi_pass_workflow_coordinator.py::_MultiPassWorkflowCoordinator.getSecondPassAlignmentRows#checked', 'src/program.py::Program.run', 'src/program.py::Program.__readMaps'], 'exploration',
     "Decided by a BOUNDED differential run-time contract on the real program: file order and id filters go through pandas, outside any contract within "
     "reach. The records of a run on the full files are compared per query with runs on subsets, permutations, row-shuffled files and -qId/-rId selections. "
     "Deductive contributions reported alongside: the only cross-query access, the lookup in getUnalignedFragments, returns the map with the row's own query id "
@@ -370,7 +375,7 @@ PLANS['C10'] = Plan(
 )
 
 PLANS['C09'] = Plan(
-    'C09', ['src/workflow_coordinator.py::_WorkflowCoordinator.execute'], 'other',
+    'C09', ['src/workflow_coordinator.py::_WorkflowCoordinator.execute', 'src/program.py::Program.run'], 'other',
     "Contracts are silent on scheduling; what is checked deductively is the sequential core, as STATIC obligations on the AST of /repo on every run: the map "
     "used by _WorkflowCoordinator.execute is p_tqdm.p_imap (assumed contract: results in input order for every num_cpus); the per-run service objects are not "
     "mutated between queries (only AlignerEngine.iteration, which reaches results only through AlignedPair.source, itself read only by repr/hash/copy); no "
